@@ -550,6 +550,19 @@ PROPS = {
         "level": "other",
         "units": ["nsecval"],
         "kani": [],
+        "incrate_native": [
+            {"test": "dnssec::validator::nsec::verif_native::c14_search_nsec3_labels", "kind": "search",
+             "file": "native/incrate/validator_nsec.rs",
+             "what": "16 900 labels (every string of <= 4 octets over digits, letters inside and outside A-V in both cases, '-', '=', "
+                     "space and a non-ASCII octet; every label length 1..63 filled with digits / letters, with a bad last character, "
+                     "a non-UTF-8 first octet, a two-octet character at the end; real hashes) through the private "
+                     "validator::nsec::nsec3_label_to_hash: no panic, Some exactly for unpadded Base32hex text, the hash writes back "
+                     "as the label (bounded exploration, in-crate through the verif_native hook)"},
+            {"test": "dnssec::validator::group::verif_native::d44_cached_verdict_outlives_signature", "kind": "replay", "finding": "D44",
+             "file": "native/incrate/validator_group.rs",
+             "what": "Group::check_sig_cached under the crate's test clock: a verdict computed while a signature was valid (or not yet "
+                     "valid) must not be served after its expiration (inception) time"},
+        ],
         "explanation": "decides two small clauses of the statement only. 'No upstream NSEC3 owner label makes the validator panic': "
                        "validator::nsec::nsec3_label_to_hash (real text; core::str::from_utf8 and OwnerHash::from_str stubbed with "
                        "arbitrary results) has no reachable expect/unwrap/panic for any label. The interval predicates every "
@@ -630,7 +643,7 @@ PROPS = {
     "C05": {
         "level": "proof",
         "level_prefix": "Partial proof -- contracts discharged without bound on the mechanisms named below, not the whole statement (bounded stand-ins and what is left out are listed): ",
-        "units": ["rtypebitmap", "tsig", "rdcompose"],
+        "units": ["rtypebitmap", "tsig", "rdcompose", "rdparse"],
         "vx_search": {"bin": "c05_search_small_rdata", "crate": "replay", "release": True,
                       "what": "158 small values of 21 record data types (A, AAAA, MX, SRV, NS, CNAME, PTR, DNAME, SOA, NSEC, RRSIG, DNSKEY, DS, CDS, "
                               "TLSA, SSHFP, OPENPGPKEY, NSEC3PARAM, NSEC3, TXT, HINFO; boundary values, mixed-case names, full 32-octet bitmap "
@@ -660,6 +673,7 @@ PROPS = {
         ],
         "replays": [
             {"bin": "d35_opt_push_ignores_option_header", "finding": "D35"},
+            {"bin": "d45_dnskey_parse_long", "finding": "D45"},
             {"bin": "d40_infallible_constructors_long_rdata", "finding": "D40", "expect": "fail"},
             {"bin": "d41_ipseckey_new_vs_parse", "finding": "D41", "expect": "fail"},
         ],
@@ -670,7 +684,12 @@ PROPS = {
                        "on accepted values rdlen() == number of octets compose_rdata() appends, the octets are the fields in wire "
                        "order, and compose_canonical_rdata() appends the same octets (these are the wire forms the C04 unit "
                        "nsec3order orders by); the same for Nsec3param with its length-prefixed salt (Nsec3Salt::{salt_len, "
-                       "compose_len, compose}). Otherwise: bounded/complete contract checking with Kani of the compose/parse/rdlen quadruple on the compiled, "
+                       "compose_len, compose}). Unit rdparse (rdata/dnssec.rs, rdata/cds.rs): Dnskey, Ds, Cdnskey and Cds::parse accept exactly the "
+                       "record data of 4..=65535 octets, consume all of it, and return a value that satisfies the type invariant rdlen() and "
+                       "compose_rdata() rely on and whose wire form -- the same spec function the composing side is verified against -- is "
+                       "the octets read; lemmas: the layouts are injective, so parse(compose(x)) has the fields of x and "
+                       "compose(parse(octets)) == octets, for every value and every length (this is the contract that exposed D45). "
+                       "Otherwise: bounded/complete contract checking with Kani of the compose/parse/rdlen quadruple on the compiled, "
                        "macro-generated generic code, for the record types CBMC can handle: A and AAAA complete over all values; DS, "
                        "DNSKEY, TLSA, SSHFP, HINFO with small symbolic octet fields; MX and SRV with one fixed name (canonical "
                        "lower-casing). Verus unit rtypebitmap (rdata/dnssec.rs, real text): the type bitmap shared by NSEC, NSEC3 "
@@ -686,6 +705,7 @@ PROPS = {
             "octets values are at most a quarter of the address space long (makes the checked_add(..).expect() of Tsig::new dead code)",
             "ToName::compose_len is between 1 and 255 (C03)",
             "Compose for u8/u16/int_enum! types appends the big-endian octets (to_be_bytes has no Verus specification); Composer::append_slice appends exactly the slice or fails leaving the target alone",
+            "Parse for u8/u16/int_enum! types reads the big-endian octets and fails without moving on short input; Parser::parse_octets (Octets::range) returns the next len octets (octseq; for [u8] slicing)",
         ],
         "not_covered": "The macro-generated enums ZoneRecordData/AllRecordData (rdata/macros.rs: one match arm per method and variant; "
                        "extraction works on syn items, not macro bodies, and CBMC does not finish on the enum even for one variant: "
